@@ -7,6 +7,10 @@
 (* in TraceShmem.tla).  Lengths are symbolic: the topology needs LP bytes, *)
 (* a page has PG bytes; the replay substitutes the real numbers.           *)
 (*                                                                         *)
+(* The original topology is a configuration (OrigSpace): topology flag     *)
+(* word x stores the application added after load x stale caches left by a *)
+(* restrict x loaded from a description or through XML.                    *)
+(*                                                                         *)
 (* Checked here: an adoption only ever exists for an intact image that was *)
 (* designated exactly, adopted ranges never overlap each other or free     *)
 (* pages, destroy gives the pages back, allow needs INCLUDE_DISALLOWED.    *)
@@ -15,8 +19,9 @@
 (***************************************************************************)
 EXTENDS Shmem, Json, TLC
 
-CONSTANTS Disallowed,     \* the original was loaded with HWLOC_TOPOLOGY_FLAG_INCLUDE_DISALLOWED
-          Offsets,        \* file offsets (pages) of the first image
+CONSTANTS Origs,          \* configurations of the original topology (see OrigSpace)
+          Bases,          \* subset of {0, 1, 2, 3}: where an image may start (0: file start, 1: after the last image, 2 / 3: far)
+          Offsets,        \* file offsets (pages) from the base
           Slots,          \* address slots
           WriteDevs,      \* subset of {"none","orem","arem","dlen","lrem","busy","flags"}
           AdoptDevs,      \* subset of AllAdoptDevs
@@ -26,23 +31,53 @@ CONSTANTS Disallowed,     \* the original was loaded with HWLOC_TOPOLOGY_FLAG_IN
           MaxWrites, MaxMods, MaxPatches, MaxAdopters, MaxFail, MaxOK, MaxCalls, MaxDestroys,
           NStripes, Stripe, SimLen
 
+(* ---- the original topology: how it was loaded and what the application did to it before sharing ----
+   <<family, source, topology flag word, distances added, memory attribute values added, CPU kinds registered, staleness>>
+   family    which synthetic description and decorations (chosen by the replay; opaque here)
+   source    "syn": loaded from the description with the flag word;  "xml": the description with all three stores filled,
+             exported to XML and loaded again with the flag word (so NO_DISTANCES / NO_MEMATTRS / NO_CPUKINDS discard what the
+             XML carries and IMPORT_SUPPORT imports its support bits)
+   flags     sum of a subset of FlagBits
+   added     the application adds its own distances / memory attribute values / CPU kinds after load (also under NO_*: those
+             flags only ignore what the operating system and XML report)
+   stale     "none" | "restrict": a restrict that removes objects named by the stores is the last modification, their caches
+             are stale when the topology is measured and written | "refreshed": hwloc_topology_refresh() after that restrict *)
+FLAG_DISALLOWED == 1
+FLAG_IMPORT_SUPPORT == 8
+FLAG_NO_DISTANCES == 128
+FLAG_NO_MEMATTRS == 256
+FLAG_NO_CPUKINDS == 512
+FlagBits == {FLAG_DISALLOWED, FLAG_IMPORT_SUPPORT, FLAG_NO_DISTANCES, FLAG_NO_MEMATTRS, FLAG_NO_CPUKINDS}
+RECURSIVE SumOf(_)
+SumOf(S) == IF S = {} THEN 0 ELSE LET x == CHOOSE y \in S : TRUE IN x + SumOf(S \ {x})
+AllFlagWords == {SumOf(S) : S \in SUBSET FlagBits}
+\* every flag alone, the three NO_* together, everything, and nothing
+FewFlagWords == {0, 1, 8, 128, 256, 512, 9, 896, 905}
+Staleness == {"none", "restrict", "refreshed"}
+OrigSpace(fams, srcs, words) ==
+  {<<f, s, w, d, m, c, st>> : f \in fams, s \in srcs, w \in words, d \in {0, 1}, m \in {0, 1}, c \in {0, 1}, st \in Staleness}
+HasFlag(w, b) == (w \div b) % 2 = 1
+
 PG == 8                   \* bytes per page in the model
+FarOff(b) == IF b = 2 THEN 1000 * PG ELSE 2000 * PG     \* stands for 2 GiB / 4 GiB (the replay substitutes the real numbers)
 LP == 3 * PG              \* bytes needed by the topology (what get_length returns)
 SlotPg(s) == 16 + 64 * s
 EOFPAGES == 100           \* "far beyond the end of the file"
 AllAdoptDevs == {"none", "doff+", "doff-", "dorem", "eof", "slot", "shift+", "shift-", "arem", "dlen+", "dlen-", "lrem", "flags"}
 
-VARIABLES phase,          \* "master" | "adopter"
+VARIABLES orig,           \* the configuration of the original topology (never changes; first entry of the history)
+          phase,          \* "master" | "adopter"
           iseq,           \* images in write order; [off, pg, rem, len, snap, bad, slot]
           fend, snapno,
           free, live,     \* adopter process: free pages; live[h] = [n |-> 0] | [n |-> 1, pages, img, allowed]
           cnt,            \* counters [w, m, p, a, f, ok, c, d]
           last,           \* name of the last call on an adopted topology (history abstraction, part of the view)
           hist
-vars == <<phase, iseq, fend, snapno, free, live, cnt, last, hist>>
+vars == <<orig, phase, iseq, fend, snapno, free, live, cnt, last, hist>>
 
 NoH == [n |-> 0]
 Hs == {1, 2}
+Disallowed == HasFlag(orig[3], FLAG_DISALLOWED)     \* the original was loaded with HWLOC_TOPOLOGY_FLAG_INCLUDE_DISALLOWED
 \* simulated walks (SimLen > 0) draw few arguments per step, biased to the nominal ones, so that a walk mixes all actions;
 \* the exhaustive runs (SimLen = 0) range over everything
 Sim == SimLen > 0
@@ -51,20 +86,24 @@ Pick3(S) == IF ~Sim \/ S = {} THEN S ELSE {RandomElement(S), RandomElement(S), R
 Rarely(n) == IF Sim THEN RandomElement(1..n) = 1 ELSE TRUE          \* thins an action out of the simulated walks
 ImgSet == {[off |-> iseq[k].off, pg |-> iseq[k].pg, rem |-> iseq[k].rem, len |-> iseq[k].len, snap |-> iseq[k].snap, bad |-> iseq[k].bad] : k \in DOMAIN iseq}
 LivePages == UNION {live[h].pages : h \in {k \in Hs : live[k].n = 1}}
-Running == IF SimLen = 0 THEN TRUE ELSE Len(hist) < SimLen
+Running == IF SimLen = 0 THEN TRUE ELSE Len(hist) < SimLen + 1
 Step(entry) == hist' = Append(hist, entry)
 Bump(f) == cnt' = [cnt EXCEPT ![f] = @ + 1]
 
-Init == /\ phase = "master" /\ iseq = <<>> /\ fend = 0 /\ snapno = 1
+Init == /\ orig \in Origs
+        /\ phase = "master" /\ iseq = <<>> /\ fend = 0 /\ snapno = 1
         /\ free = {} /\ live = [h \in Hs |-> NoH]
         /\ cnt = [w |-> 0, m |-> 0, p |-> 0, a |-> 0, f |-> 0, ok |-> 0, c |-> 0, d |-> 0]
-        /\ last = "" /\ hist = <<>>
+        /\ last = "" /\ hist = << <<"orig">> \o orig >>
 
 (* ---- master ---- *)
 \* hwloc_shmem_topology_write in a forked writer
-Write == \E obase \in {0, 1}, op \in Pick(Offsets, {}), slot \in Pick(Slots, {}), dev \in Pick(WriteDevs, {"none"}) :
+Write == \E obase \in Pick(Bases, {0, 1}), op \in Pick(Offsets, {}), slot \in Pick(Slots, {}), dev \in Pick(WriteDevs, {"none"}) :
   /\ Running /\ phase = "master" /\ cnt.w < MaxWrites
-  /\ obase = 0 <=> iseq = <<>>                 \* the first image at an absolute offset, the next ones after it
+  \* the first image at an absolute offset, the next ones after it; or at a far absolute offset (2 GiB, 4 GiB) beyond everything written
+  /\ CASE obase = 0 -> iseq = <<>>
+       [] obase = 1 -> iseq # <<>>
+       [] OTHER -> fend <= FarOff(obase)
   /\ LET orem == IF dev = "orem" THEN 1 ELSE 0
          arem == IF dev = "arem" THEN 1 ELSE 0
          lrem == IF dev = "lrem" THEN 1 ELSE 0
@@ -72,7 +111,7 @@ Write == \E obase \in {0, 1}, op \in Pick(Offsets, {}), slot \in Pick(Slots, {})
          punch == IF dev = "busy" THEN 0 ELSE 1
          flags == IF dev = "flags" THEN 1 ELSE 0
          tail == IF op = 1 THEN 2 ELSE 0
-         off == (IF obase = 1 THEN fend ELSE 0) + op * PG + orem
+         off == (CASE obase = 0 -> 0 [] obase = 1 -> fend [] OTHER -> FarOff(obase)) + op * PG + orem
          len == LP + dlen * PG + lrem
          pages == PagesOf(SlotPg(slot), arem, len, PG)
          avail == Avail(Prepared({}, {}, pages, punch), pages)
@@ -83,14 +122,14 @@ Write == \E obase \in {0, 1}, op \in Pick(Offsets, {}), slot \in Pick(Slots, {})
            ELSE UNCHANGED <<iseq, fend>>
         /\ Step(<<"write", obase, op, orem, slot, 0, arem, dlen, lrem, punch, flags, tail>>)
   /\ Bump("w")
-  /\ UNCHANGED <<phase, snapno, free, live, last>>
+  /\ UNCHANGED <<orig, phase, snapno, free, live, last>>
 
 \* the master modifies its topology between two writes (new snapshot, new length)
 Modify == /\ Running /\ phase = "master" /\ cnt.m < MaxMods /\ iseq # <<>> /\ Rarely(4)
           /\ snapno' = snapno + 1
           /\ Step(<<"modify", snapno>>)
           /\ Bump("m")
-          /\ UNCHANGED <<phase, iseq, fend, free, live, last>>
+          /\ UNCHANGED <<orig, phase, iseq, fend, free, live, last>>
 
 \* a header field or the ABI word of an image is damaged (or repaired: the same byte flips back)
 Patch == \E k \in Pick(DOMAIN iseq, {}), f \in Pick(PatchFields, {}) :
@@ -98,18 +137,18 @@ Patch == \E k \in Pick(DOMAIN iseq, {}), f \in Pick(PatchFields, {}) :
   /\ iseq' = [iseq EXCEPT ![k].bad = Toggle(@, f)]
   /\ Step(<<"patch", k - 1, f>>)
   /\ Bump("p")
-  /\ UNCHANGED <<phase, fend, snapno, free, live, last>>
+  /\ UNCHANGED <<orig, phase, fend, snapno, free, live, last>>
 
 AdopterStart == /\ Running /\ phase = "master" /\ cnt.a < MaxAdopters /\ (IF iseq = <<>> THEN Rarely(4) ELSE TRUE)
                 /\ phase' = "adopter" /\ free' = {} /\ live' = [h \in Hs |-> NoH]
                 /\ Step(<<"adopter">>)
                 /\ Bump("a")
-                /\ UNCHANGED <<iseq, fend, snapno, last>>
+                /\ UNCHANGED <<orig, iseq, fend, snapno, last>>
 
 AdopterEnd == /\ Running /\ phase = "adopter" /\ (IF iseq = <<>> THEN TRUE ELSE Rarely(8))
               /\ phase' = "master" /\ free' = {} /\ live' = [h \in Hs |-> NoH]
               /\ Step(<<"end">>)
-              /\ UNCHANGED <<iseq, fend, snapno, cnt, last>>
+              /\ UNCHANGED <<orig, iseq, fend, snapno, cnt, last>>
 
 (* ---- adopter ---- *)
 \* hwloc_shmem_topology_adopt with the arguments of image k and one deviation
@@ -143,7 +182,7 @@ Adopt == \E h \in Hs, k \in (DOMAIN iseq \cup {0}), dev \in Pick(AdoptDevs, {"no
                 /\ live' = live /\ free' = free1
                 /\ Bump("f")
         /\ Step(<<"adopt", h - 1, k - 1, doff, dorem, slot, shift, arem, dlen, lrem, punch, flags>>)
-  /\ UNCHANGED <<phase, iseq, fend, snapno, last>>
+  /\ UNCHANGED <<orig, phase, iseq, fend, snapno, last>>
 
 \* any public call on an adopted topology: only hwloc_topology_allow may change something, and only the allowed sets
 Call == \E h \in Hs, c \in Pick3(CallSet) :
@@ -153,7 +192,7 @@ Call == \E h \in Hs, c \in Pick3(CallSet) :
   /\ last' = c[1]
   /\ Step(<<"call", h - 1, c[1], c[2], c[3], c[4], c[5]>>)
   /\ Bump("c")
-  /\ UNCHANGED <<phase, iseq, fend, snapno, free>>
+  /\ UNCHANGED <<orig, phase, iseq, fend, snapno, free>>
 
 \* hwloc_topology_destroy unmaps
 Destroy == \E h \in Hs :
@@ -162,17 +201,17 @@ Destroy == \E h \in Hs :
   /\ live' = [live EXCEPT ![h] = NoH]
   /\ Step(<<"destroy", h - 1>>)
   /\ Bump("d")
-  /\ UNCHANGED <<phase, iseq, fend, snapno, last>>
+  /\ UNCHANGED <<orig, phase, iseq, fend, snapno, last>>
 
 \* end of a simulated walk: print it once
-SimEnd == /\ SimLen > 0 /\ Len(hist) = SimLen
+SimEnd == /\ SimLen > 0 /\ Len(hist) = SimLen + 1
           /\ PrintT(<<"SIM", ToJson(hist)>>)
           /\ FALSE
           /\ UNCHANGED vars
 
 Next == Write \/ Modify \/ Patch \/ AdopterStart \/ AdopterEnd \/ Adopt \/ Call \/ Destroy \/ SimEnd
 Spec == Init /\ [][Next]_vars
-StateView == <<phase, iseq, fend, snapno, free, live, cnt, last>>
+StateView == <<orig, phase, iseq, fend, snapno, free, live, cnt, last>>
 
 (* ---- the property on the model ---- *)
 \* an adopted topology always stems from an image that was designated exactly: its pages are the image's pages
@@ -191,6 +230,6 @@ MasterHasNoAdoptions == phase = "master" => (free = {} /\ \A h \in Hs : live[h].
 
 RECURSIVE HSum(_)
 HSum(h) == IF h = <<>> THEN 0
-           ELSE ((Len(Head(h)) * 7 + Len(Head(h)[1]) + (IF Len(Head(h)) > 3 /\ Head(h)[1] # "call" THEN Head(h)[3] + 3 * Head(h)[4] + 8 ELSE 1)) + 5 * HSum(Tail(h))) % 1000003
+           ELSE ((Len(Head(h)) * 7 + Len(Head(h)[1]) + (IF Len(Head(h)) > 3 /\ Head(h)[1] \notin {"call", "orig"} THEN Head(h)[3] + 3 * Head(h)[4] + 8 ELSE 1)) + 5 * HSum(Tail(h))) % 1000003
 EmitEdge == (HSum(hist') % NStripes = Stripe) => PrintT(<<"EDGE", ToJson(hist')>>)
 =============================================================================
